@@ -1,21 +1,21 @@
 import NetVerif.Proofs.Lemmas.Hpack
+import NetVerif.Proofs.C02
 /-!
 C03 — HPACK decoding is independent of how a header block is split into `Write` calls.
 
 Model: `NetVerif.Model.Hpack` (`Decoder.write` with `saveBuf` resumption exactly as coded,
 including the `len(buf) > 2*(maxStrLen+varIntOverhead)` "paranoia" branch of `Decoder.Write`).
 
-* `WriteSplitStatement` — the property at full strength (all decoders between blocks, all
-  blocks, all partitions): same emitted fields, same decoder state, same success/failure.
-* `write_split_full_false` — it is **false** for the code as it is: `maxStrLen = 127`, one
-  275-byte literal with two 10-byte over-long length varints; one `Write` succeeds, a split at
-  271 fails with `ErrStringLength` (the paranoia bound is 270).
-* `write_split_partial` — it holds whenever the paranoia branch is not taken in either run
-  (the decidable excluded region: a run ends with `PErr.strLenParanoia`; the Go oracle reports
-  exactly this region under the signature `c03-savebuf-bound`). Equality is exact: also the
-  error kind and the saved bytes agree.
-* `write_split_ideal` — without the bound (`paranoia := false`) independence is unconditional;
-  `real_eq_ideal` — the code agrees with that ideal decoder unless the bound fires.
+* `write_split` / `write_split_statement` — **the property at full strength** (all decoders between
+  blocks, all blocks, all partitions): exactly the same emitted fields, decoder state and result.
+* `needMore_length_le` — an incomplete representation prefix is at most `2·maxStrLen + 20` bytes;
+  with the repaired constant `varIntOverhead = 10` (`varIntOverhead_eq`, regenerated from
+  `Decoder.Write`) the saveBuf bound is exactly that, so its branch is dead
+  (`writeLoop_paranoia_dead`). Before the repair (`varIntOverhead = 8`) the statement was false:
+  `maxStrLen = 127`, a 275-byte literal with two 10-byte over-long length varints, split at 271
+  (kept as `witness_regression`, which now satisfies the statement, and in `corpus/C03`).
+* `write_split_ideal`, `real_eq_ideal`, `write_split_partial` — the bound-independent parts: the
+  decoder without the bound is split independent, and the code equals it unless the bound fires.
 -/
 namespace NetVerif.Proofs.C03
 open NetVerif.Model.Hpack
@@ -154,9 +154,310 @@ theorem write_split_partial (d : Decoder) (chunks : List Bytes) (h : d.saveBuf =
   rw [← runWrites_real_ideal d chunks h1, ← runWrites_real_ideal d [chunks.flatten] h2]
   exact write_split_ideal d chunks h
 
-/-- The regenerated constant of `Decoder.Write` the finding is about (a change breaks this obligation
-and the witness below is re-evaluated against the new bound). -/
-theorem varIntOverhead_eq : Gen.HpackStatic.varIntOverhead = 8 ∧ paranoiaBound 127 = 270 := by decide
+/-! ### The longest incomplete representation, and why the saveBuf bound can no longer fire
+
+`parseRepr d buf = needMore` (an incomplete representation) implies `buf.length ≤ 2·maxStrLen + 20`:
+a literal with a literal name is 1 byte + (≤ 10-byte length + ≤ maxStrLen bytes) twice; with an
+indexed name ≤ 10 + 10 + maxStrLen; indexed fields and size updates ≤ 10. The repaired bound
+`2·(maxStrLen + varIntOverhead)` with `varIntOverhead = 10` is exactly that, so the branch is dead. -/
+
+theorem readVarIntLoop_needMore : ∀ (p : Bytes) (i m : Nat), m ≤ 56 → m % 7 = 0 →
+    readVarIntLoop p i m = .error .needMore → p.length ≤ (62 - m) / 7 := by
+  intro p
+  induction p with
+  | nil => intros; simp
+  | cons b p ih =>
+    intro i m hm hm7 h
+    simp only [readVarIntLoop] at h
+    split at h
+    · simp at h
+    · split at h
+      · simp at h
+      · have := ih _ (m + 7) (by omega) (by omega) h
+        simp only [List.length_cons]
+        omega
+
+/-- An incomplete integer has at most 9 bytes. -/
+theorem readVarInt_needMore (n : Nat) (buf : Bytes) (h : readVarInt n buf = .error .needMore) :
+    buf.length ≤ 9 := by
+  cases buf with
+  | nil => simp
+  | cons b p =>
+    simp only [readVarInt] at h
+    generalize (if n < 8 then b % 2 ^ n else b) = i at h
+    split at h
+    · simp at h
+    · have := readVarIntLoop_needMore p i 0 (by omega) (by omega) h
+      simp only [List.length_cons]
+      omega
+
+theorem readVarIntLoop_ge : ∀ (p : Bytes) (i m v : Nat) (rest : Bytes),
+    readVarIntLoop p i m = .ok (v, rest) → i ≤ v := by
+  intro p
+  induction p with
+  | nil => intro i m v rest h; simp [readVarIntLoop] at h
+  | cons b p ih =>
+    intro i m v rest h
+    simp only [readVarIntLoop] at h
+    split at h
+    · simp only [Except.ok.injEq, Prod.mk.injEq] at h; omega
+    · split at h
+      · simp at h
+      · have := ih _ _ _ _ h; omega
+
+/-- The integer 0 is always a single byte (there is no over-long zero). -/
+theorem readVarInt_zero (n : Nat) (hn : 1 ≤ n) (buf rest : Bytes) (h : readVarInt n buf = .ok (0, rest)) :
+    buf.length = rest.length + 1 := by
+  cases buf with
+  | nil => simp [readVarInt] at h
+  | cons b p =>
+    simp only [readVarInt] at h
+    generalize (if n < 8 then b % 2 ^ n else b) = i at h
+    split at h
+    · simp only [Except.ok.injEq, Prod.mk.injEq] at h
+      rw [← h.2]; simp
+    · have := readVarIntLoop_ge p i 0 0 rest h
+      have h2 : 2 ^ 1 ≤ 2 ^ n := Nat.pow_le_pow_right (by omega) hn
+      omega
+
+def NeedLe {α : Type} (B : Nat) (p : Parser α) : Prop := ∀ buf, p buf = .error .needMore → buf.length ≤ B
+def ConsLe {α : Type} (C : Nat) (p : Parser α) : Prop := ∀ buf a rest, p buf = .ok (a, rest) → buf.length ≤ rest.length + C
+def NoNeed {α : Type} (p : Parser α) : Prop := ∀ buf, p buf ≠ .error .needMore
+
+theorem noNeed_pure {α : Type} (a : α) : NoNeed (Parser.pure a) := by
+  intro buf h; simp [Parser.pure] at h
+
+theorem noNeed_fail {α : Type} (e : PErr) (he : e ≠ .needMore) : NoNeed (Parser.fail e : Parser α) := by
+  intro buf h
+  simp only [Parser.fail, Except.error.injEq] at h
+  exact he h
+
+theorem needLe_bind_noNeed {α β : Type} (B : Nat) (p : Parser α) (f : α → Parser β)
+    (hp : NeedLe B p) (hf : ∀ a, NoNeed (f a)) : NeedLe B (p.bind f) := by
+  intro buf h
+  simp only [Parser.bind] at h
+  cases hpb : p buf with
+  | error e => rw [hpb] at h; simp only [Except.error.injEq] at h; subst h; exact hp buf hpb
+  | ok ar =>
+    obtain ⟨a, r⟩ := ar
+    rw [hpb] at h
+    exact absurd h (hf a r)
+
+theorem needLe_bind {α β : Type} (Bp Cp Bf : Nat) (p : Parser α) (f : α → Parser β)
+    (hp : NeedLe Bp p) (hc : ConsLe Cp p) (hf : ∀ a, NeedLe Bf (f a)) :
+    NeedLe (max Bp (Cp + Bf)) (p.bind f) := by
+  intro buf h
+  simp only [Parser.bind] at h
+  cases hpb : p buf with
+  | error e =>
+    rw [hpb] at h; simp only [Except.error.injEq] at h; subst h
+    have := hp buf hpb
+    omega
+  | ok ar =>
+    obtain ⟨a, r⟩ := ar
+    rw [hpb] at h
+    have h1 := hc buf a r hpb
+    have h2 := hf a r h
+    omega
+
+theorem needLe_readString (m : Nat) (hm : m ≠ 0) : NeedLe (m + 9) (readString m) := by
+  intro buf h
+  cases buf with
+  | nil => simp
+  | cons b0 p =>
+    simp only [readString] at h
+    cases hr : readVarInt 7 (b0 :: p) with
+    | error e =>
+      rw [hr] at h
+      simp only [Except.error.injEq] at h
+      subst h
+      have := readVarInt_needMore 7 _ hr
+      omega
+    | ok ar =>
+      obtain ⟨strLen, p'⟩ := ar
+      rw [hr] at h
+      simp only at h
+      have hc := (C02.readVarInt_consumed 7 _ _ _ hr).2
+      split at h
+      · simp at h
+      · split at h
+        · omega
+        · simp at h
+
+theorem consLe_readString (m : Nat) (hm : m ≠ 0) : ConsLe (m + 10) (readString m) := by
+  intro buf u rest h
+  cases buf with
+  | nil => simp [readString] at h
+  | cons b0 p =>
+    simp only [readString] at h
+    cases hr : readVarInt 7 (b0 :: p) with
+    | error e => rw [hr] at h; simp at h
+    | ok ar =>
+      obtain ⟨strLen, p'⟩ := ar
+      rw [hr] at h
+      simp only at h
+      have hc := (C02.readVarInt_consumed 7 _ _ _ hr).2
+      split at h
+      · simp at h
+      · split at h
+        · simp at h
+        · simp only [Except.ok.injEq, Prod.mk.injEq] at h
+          rw [← h.2]
+          simp only [List.length_drop]
+          omega
+
+theorem needLe_parseLiteral (d : DecCore) (n : Nat) (hn : 1 ≤ n) (it : IndexType) (hm : d.maxStrLen ≠ 0) :
+    NeedLe (2 * d.maxStrLen + 20) (parseLiteral d n it) := by
+  intro buf h
+  simp only [parseLiteral] at h
+  rw [Parser.bind] at h
+  cases hr : readVarInt n buf with
+  | error e =>
+    rw [hr] at h
+    simp only [Except.error.injEq] at h
+    subst h
+    have := readVarInt_needMore n _ hr
+    omega
+  | ok ar =>
+    obtain ⟨nameIdx, r⟩ := ar
+    rw [hr] at h
+    simp only at h
+    have hc := (C02.readVarInt_consumed n _ _ _ hr).2
+    by_cases hz : nameIdx > 0
+    · simp only [hz, ↓reduceIte] at h
+      cases hat : d.at nameIdx with
+      | none => rw [hat] at h; simp [Parser.fail] at h
+      | some e =>
+        rw [hat] at h
+        have := needLe_bind_noNeed (d.maxStrLen + 9) (readString d.maxStrLen) _ (needLe_readString _ hm)
+          (fun uv => noNeed_pure _) r h
+        omega
+    · simp only [hz, ↓reduceIte] at h
+      have hz' : nameIdx = 0 := by omega
+      subst hz'
+      have h1 := readVarInt_zero n hn buf r hr
+      have := needLe_bind (d.maxStrLen + 9) (d.maxStrLen + 10) (d.maxStrLen + 9) (readString d.maxStrLen) _
+        (needLe_readString _ hm) (consLe_readString _ hm)
+        (fun un => needLe_bind_noNeed (d.maxStrLen + 9) (readString d.maxStrLen) _ (needLe_readString _ hm)
+          (fun uv => noNeed_pure _)) r h
+      omega
+
+/-- **An incomplete representation prefix is at most `2·maxStrLen + 20` bytes long.** -/
+theorem needMore_length_le (d : DecCore) (buf : Bytes) (hm : d.maxStrLen ≠ 0)
+    (h : parseRepr d buf = .needMore) : buf.length ≤ 2 * d.maxStrLen + 20 := by
+  have hpa : parseAction d buf = .error .needMore := by
+    unfold parseRepr at h
+    cases hp : parseAction d buf with
+    | error e => rw [hp] at h; cases e <;> simp at h; rfl
+    | ok ar =>
+      obtain ⟨a, r⟩ := ar
+      rw [hp] at h
+      simp only at h
+      cases ha : applyAction d a <;> rw [ha] at h <;> simp at h
+  cases buf with
+  | nil => simp
+  | cons b p =>
+    simp only [parseAction] at hpa
+    have hidx : NeedLe 9 ((readVarInt 7).bind fun idx =>
+        match d.at idx with
+        | none => (Parser.fail .invalidIndex : Parser Action)
+        | some e => Parser.pure (.indexed e)) := by
+      apply needLe_bind_noNeed _ _ _ (readVarInt_needMore 7)
+      intro idx
+      split
+      · exact noNeed_fail _ (by simp)
+      · exact noNeed_pure _
+    have hupd : NeedLe 9 ((readVarInt 5).bind fun size =>
+        if size > d.dyn.allowedMaxSize then (Parser.fail .tableUpdateTooLarge : Parser Action)
+        else Parser.pure (.sizeUpdate size)) := by
+      apply needLe_bind_noNeed _ _ _ (readVarInt_needMore 5)
+      intro size
+      split
+      · exact noNeed_fail _ (by simp)
+      · exact noNeed_pure _
+    split at hpa
+    · have := hidx _ hpa; omega
+    · split at hpa
+      · exact needLe_parseLiteral d 6 (by omega) _ hm _ hpa
+      · split at hpa
+        · exact needLe_parseLiteral d 4 (by omega) _ hm _ hpa
+        · split at hpa
+          · exact needLe_parseLiteral d 4 (by omega) _ hm _ hpa
+          · split at hpa
+            · split at hpa
+              · simp at hpa
+              · have := hupd _ hpa; omega
+            · simp at hpa
+
+/-- The regenerated constant of `Decoder.Write` (follows the Go source; a smaller value breaks this
+obligation and re-opens the defect). -/
+theorem varIntOverhead_eq : Gen.HpackStatic.varIntOverhead = 10 := by decide
+
+theorem paranoiaBound_eq (m : Nat) : paranoiaBound m = 2 * m + 20 := by
+  unfold paranoiaBound
+  rw [varIntOverhead_eq]
+  omega
+
+/-- **The saveBuf bound of `Decoder.Write` never fires**: the code as it is *is* the ideal decoder. -/
+theorem writeLoop_paranoia_dead : ∀ (f : Nat) (d : DecCore) (buf : Bytes) (em : List Field),
+    writeLoop true f d buf em = writeLoop false f d buf em := by
+  intro f
+  induction f with
+  | zero => intro d buf em; rfl
+  | succ f ih =>
+    intro d buf em
+    simp only [writeLoop]
+    split
+    · rfl
+    · cases hpr : parseRepr d buf with
+      | needMore =>
+        simp only
+        by_cases hm : d.maxStrLen = 0
+        · simp [hm]
+        · have := needMore_length_le d buf hm hpr
+          have hb := paranoiaBound_eq d.maxStrLen
+          have hn : ¬ buf.length > paranoiaBound d.maxStrLen := by omega
+          simp [hn]
+      | err e d' => rfl
+      | ok d' rest e =>
+        simp only
+        split
+        · exact ih _ _ _
+        · rfl
+
+theorem runChunks_paranoia_dead : ∀ (chunks : List Bytes) (d : Decoder),
+    runChunks true d chunks = runChunks false d chunks := by
+  intro cs
+  induction cs with
+  | nil => intro d; rfl
+  | cons c cs ih =>
+    intro d
+    have hw : d.writeG true c = d.writeG false c := by
+      unfold Decoder.writeG
+      split
+      · rfl
+      · simp only [writeLoop_paranoia_dead]
+    simp only [runChunks, hw]
+    cases d.writeG false c with
+    | mk d1 r =>
+      obtain ⟨em1, e⟩ := r
+      cases e with
+      | some e => rfl
+      | none => simp only [ih d1]
+
+/-- **C03 at full strength (exact form).** Every partition of every header block into `Write`
+calls yields exactly the same decoder state, emitted fields and result (including the error kind)
+as a single `Write`. -/
+theorem write_split (d : Decoder) (chunks : List Bytes) (h : d.saveBuf = []) :
+    runWrites d chunks = runWrites d [chunks.flatten] := by
+  unfold runWrites runWritesG
+  rw [runChunks_paranoia_dead, runChunks_paranoia_dead]
+  exact write_split_ideal d chunks h
+
+/-- **C03 as stated.** -/
+theorem write_split_statement : WriteSplitStatement := by
+  intro d chunks h
+  simp only [write_split d chunks h, and_self]
 
 /-! ### The witness -/
 
@@ -168,26 +469,16 @@ def witnessBlock : Bytes :=
 
 def witnessDecoder : Decoder := (Decoder.new 4096).setMaxStringLength 127
 
-theorem witness_one_write :
+/-- Regression example (the former counterexample `write_split_full_false`): with the repaired bound
+the block decodes to the same single field whether written at once or split at 271. -/
+theorem witness_regression :
     (runWrites witnessDecoder [witnessBlock]).2.2 = none ∧
+    (runWrites witnessDecoder [witnessBlock.take 271, witnessBlock.drop 271]).2.2 = none ∧
+    (runWrites witnessDecoder [witnessBlock.take 271, witnessBlock.drop 271]).2.1 =
+      [{ name := List.replicate 127 110, value := List.replicate 127 118, sensitive := false }] ∧
     (runWrites witnessDecoder [witnessBlock]).2.1 =
-      [{ name := List.replicate 127 110, value := List.replicate 127 118, sensitive := false }] := by
+      (runWrites witnessDecoder [witnessBlock.take 271, witnessBlock.drop 271]).2.1 := by
   decide +kernel
-
-theorem witness_split :
-    (runWrites witnessDecoder [witnessBlock.take 271, witnessBlock.drop 271]).2.2 = some .strLenParanoia ∧
-    (runWrites witnessDecoder [witnessBlock.take 271, witnessBlock.drop 271]).2.1 = [] := by
-  decide +kernel
-
-/-- **The full statement is false for the code as it is.** -/
-theorem write_split_full_false : ¬ WriteSplitStatement := by
-  intro h
-  have := h witnessDecoder [witnessBlock.take 271, witnessBlock.drop 271] rfl
-  simp only [List.flatten_cons, List.flatten_nil, List.append_nil, List.take_append_drop] at this
-  have h1 := witness_one_write
-  have h2 := witness_split
-  rw [h2.2, h1.2] at this
-  exact absurd this.1 (by simp)
 
 /-! ### Non-vacuity -/
 
